@@ -162,6 +162,8 @@ class TeeBench:
             except StopAsyncIteration:
                 out = "stop"
                 self.stops[i] += 1
+            except asyncio.CancelledError:
+                raise  # torn down by the bench while still waiting: reported as "stuck"
             except BaseException as e:  # noqa: BLE001
                 out = "exc:" + type(e).__name__
                 self.error = f"consumer {i}: __anext__ raised {type(e).__name__}: {e}"
@@ -283,7 +285,7 @@ def check_batch(benches: list[TeeBench], res: Result) -> None:
             outc[k] = outc.get(k, 0) + 1
         bad = oracle(b)
         if bad:
-            res.violations.append(Violation(case, "tee: " + bad, "C19:tee:" + bad.split(":")[0]))
+            res.violations.append(Violation(case, "tee: " + bad, "C19:tee:" + bad.split(":")[0].rstrip("0123456789 ")))
         d = None
         for j, ((req, exp), got) in enumerate(zip(b.lines, rep)):
             if exp != got:
